@@ -89,6 +89,9 @@ C10Seg(S, q) ==
           ELSE IF SumSeq([i \in 1..n |-> S.s[i].z]) # S.mdat[1].pl THEN {FSig("C10", "DataOffset", "mdat", "payload-size")}
           ELSE {})
     \cup (IF S.tfhdflags % 2 = 1 THEN {FSig("C10", "DataOffset", "tfhd", "base-not-moof")} ELSE {})   \* explicit base_data_offset: not fragment-relative
+    \* "altered": the sync flag is part of the accepted write (C11 states the same fact about the non-sync bit)
+    \cup (IF \E i \in 1..n : "nonsync" \in DOMAIN S.s[i] /\ S.s[i].nonsync # ~q[i].sync
+          THEN {FSig("C10", "Conservation", "trun", "sync-flag-altered")} ELSE {})
 
 C11Seg(S, q) ==
     LET n == IF Len(q) < Len(S.s) THEN Len(q) ELSE Len(S.s)
